@@ -51,8 +51,11 @@ void h_parinit(void) {
   if (in_n == CAP && in_relax[0].size == CAP) __CPROVER_assert(0, "canary: only relaxed supernodes (all singletons)");
   if (in_sh.num_splits >= 1 && in_sh.tasks_remain > in_relax[0].size + 1) __CPROVER_assert(0, "canary: a panel is split (SPLIT_TOP), several regular panels");
 #endif
-#if TREE
+#if TREE_PARENT
   if (in_n >= 5 && in_opt.panel_size >= 4 && in_sh.pan_status[2].size == 1 && in_sh.pan_status[2].type == REGULAR_PANEL && in_sh.pan_status[3].size > 0 && in_sh.pan_status[3].type == REGULAR_PANEL && in_sh.pan_status[3].ukids >= 2) __CPROVER_assert(0, "canary: regular panel cut at an etree branch point");
+#endif
+#if TREE_UKIDS
   if (in_sh.pan_status[in_n].ukids >= 2) __CPROVER_assert(0, "canary: forest with several roots");
+  if (in_n >= 4 && in_sh.pan_status[2].size == 2 && in_sh.pan_status[2].type == REGULAR_PANEL && in_sh.pan_status[2].ukids >= 2) __CPROVER_assert(0, "canary: regular panel of width 2 with two open kids");
 #endif
 }
